@@ -730,7 +730,7 @@ fn main() {
          data/parent/signature/key/name changes. Mutated signature encodings that decode to the same logical signature are \
          discarded. non-trivial = distinct (suite,data,name,parent) whose positive check passed",
     )
-    .min(args.n(200, 2000))
+    .min(args.n(1500, 30_000))
     .require("mut:sig-byte", "signature byte mutants must have been verified")
     .require("mut:data-byte", "data byte mutants")
     .require("mut:name-char", "name mutants")
@@ -749,7 +749,7 @@ fn main() {
         finish_all(&args, vec![m]);
     }
 
-    let cases = args.n(2600, 40_000);
+    let cases = args.n(8000, 150_000);
     let cap = args.tier.pick(70.0, 800.0);
     run_sharded(&args, &mut m, cases, cap, |m, k| {
         let cs = case_seed(&args, 34, k);
